@@ -104,7 +104,7 @@ struct VecOps {
         {"resize_3_v", 0}, {"assign_2_v", 0}, {"assign_range3", 0}, {"clear", 0}, {"reserve_6", 0}, {"shrink_to_fit", 0}, {"swap_tmp", 0},
         {"copy_assign_tmp", 0}, {"move_assign_tmp", 0}, {"self_copy_assign", 0}, {"assign_il3", 0}, {"at_size", 0}, {"copy_construct", 0},
         {"move_construct", 0}, {"append_2", F_EXTRAS}, {"append_2_v", F_EXTRAS}, {"append_range2", F_EXTRAS}, {"pop_back_val", F_EXTRAS},
-        {"swap2_vector", F_EXTRAS},
+        {"swap2_vector", F_EXTRAS}, {"construct_3_v", 0},
     };
     n = (int)(sizeof t / sizeof t[0]);
     return t;
@@ -125,7 +125,7 @@ struct VecOps {
         case 5: ret = v.insert(v.begin() + mid, Mk<T>::make(++ctr)) - v.begin(); break;
         case 6: if (sz == 0) return false; ret = v.insert(v.end(), v[(typename V::size_type)mid]) - v.begin(); break;
         case 7: if (sz == 0) return false; ret = v.emplace(v.begin() + mid, v[(typename V::size_type)(sz - 1)]) - v.begin(); break;
-        case 8: { T t = Mk<T>::make(++ctr); ret = v.insert(v.begin() + mid, (typename V::size_type)2, t) - v.begin(); } break;
+        case 8: { T t = Mk<T>::make(++ctr); ret = v.insert(v.begin() + mid, 2, t) - v.begin(); } break;  // plain int count: for T = int both arguments are int (count/value vs iterator-pair dispatch)
         case 9: { std::vector<T> s; s.push_back(Mk<T>::make(++ctr)); s.push_back(Mk<T>::make(++ctr)); ret = v.insert(v.begin() + mid, s.begin(), s.end()) - v.begin(); } break;
         case 10: { T a = Mk<T>::make(++ctr), b = Mk<T>::make(++ctr); ret = v.insert(v.begin(), {a, b}) - v.begin(); } break;
         case 11: if (sz == 0) return false; ret = v.erase(v.begin()) - v.begin(); break;
@@ -135,7 +135,7 @@ struct VecOps {
         case 15: v.resize((typename V::size_type)(sz + 2)); break;
         case 16: v.resize(1); break;
         case 17: { T t = Mk<T>::make(++ctr); v.resize(3, t); } break;
-        case 18: { T t = Mk<T>::make(++ctr); v.assign((typename V::size_type)2, t); } break;
+        case 18: { T t = Mk<T>::make(++ctr); v.assign(2, t); } break;
         case 19: { std::vector<T> s; for (int q = 0; q < 3; ++q) s.push_back(Mk<T>::make(++ctr)); v.assign(s.begin(), s.end()); } break;
         case 20: v.clear(); break;
         case 21: v.reserve(6); break;
@@ -147,10 +147,11 @@ struct VecOps {
         case 27: { T a = Mk<T>::make(++ctr), b = Mk<T>::make(++ctr), c = Mk<T>::make(++ctr); v = {a, b, c}; } break;
         case 28: ret = Mk<T>::val(v.at((typename V::size_type)sz)); break;
         case 29: { V c(v); obs((long)c.size()); for (const T &e : c) obs(Mk<T>::val(e)); } break;
+        case 36: { T t = Mk<T>::make(++ctr); V c(3, t); obs((long)c.size()); for (const T &e : c) obs(Mk<T>::val(e)); v.swap(c); } break;  // V(int, T): for T = int, V(int, int)
         case 30: { V c(std::move(v)); obs((long)c.size()); obs((long)v.size()); v = std::move(c); } break;
 #ifdef AMC_NONSTD_FEATURES
         case 31: v.append((typename V::size_type)2); break;
-        case 32: { T t = Mk<T>::make(++ctr); v.append((typename V::size_type)2, t); } break;
+        case 32: { T t = Mk<T>::make(++ctr); v.append(2, t); } break;
         case 33: { std::vector<T> s; s.push_back(Mk<T>::make(++ctr)); s.push_back(Mk<T>::make(++ctr)); v.append(s.begin(), s.end()); } break;
         case 34: if (sz == 0) return false; { T r = v.pop_back_val(); ret = Mk<T>::val(r); } break;
         case 35: { amc::vector<T> o; o.push_back(Mk<T>::make(++ctr)); o.push_back(Mk<T>::make(++ctr)); o.push_back(Mk<T>::make(++ctr)); v.swap2(o); obs((long)o.size()); for (const T &e : o) obs(Mk<T>::val(e)); } break;
